@@ -39,7 +39,13 @@ PAD_TOKENS = ["0", "1", "00", "10", "2", "a1", "b2", "rc1", "post1", "dev0", "",
 class C03(Prop):
     id = "C03"
     lean_modules = ["PkgProofs.Props.C03"]
-    theorems = ["C03.arbitrary_eq_spec"]
+    theorems = [
+        "C03.contains_eq_spec", "C03.contains_override_eq_spec", "C03.compare_eq_spec",
+        "C03.eq_eq_spec", "C03.ne_eq_spec", "C03.eq_wild_eq_spec", "C03.ne_wild_eq_spec", "C03.compat_eq_spec",
+        "C03.le_eq_spec", "C03.ge_eq_spec", "C03.lt_eq_spec", "C03.gt_eq_spec", "C03.arbitrary_eq_spec",
+        "C03.reparse_public", "C03.reparse_base", "C03.scan_epoch_release",
+        "SS.versionSplit_public", "SS.pad_take", "SS.take_pad", "SS.sufToks_class",
+    ]
     rule = ("operator x spec version (release length 1-5, epoch, every suffix shape, local label, wildcard; every "
             "alternate spelling) x candidate derived from the spec version (same / trailing zeros / shorter / longer / "
             "last component +-1 / epoch +-1, suffixes kept-dropped-nudged-redrawn, local label none-own-other) x "
@@ -49,7 +55,12 @@ class C03(Prop):
             "candidate both valid; distinct = distinct protocol lines")
     trusted = ["Version parsing/rendering (C02) and the version order (C01) as modelled in PkgModel/Version.lean",
                "str.isdigit / str.lower on the ASCII strings that reach _pad_version / _compare_arbitrary"]
-    partial = []
+    partial = [
+        "the link from Specifier.__init__ (S.parseSpec) to C03.Clause — 'the text after the operator scans as V, "
+        ".* only on a bare release after ==/!=, local label only after ==/!=, two release components after ~=' — is "
+        "not a theorem; it is tied by the spec.parse / spec.contains / s.spec.admits correspondence and by C12's "
+        "language theorems",
+        "str.isdigit / str.lower are modelled on ASCII (the strings reaching them are rendered versions)"]
     dist_limit = 250
     budget = {"quick": (9000, 9000), "thorough": (400000, 250000)}
 
@@ -221,30 +232,57 @@ class C03(Prop):
     def judge(self, op, args, real, model, driver):
         # refinement property: a disagreement on contains(prereleases=True) is a violation iff the real code
         # disagrees with the reference semantics there
-        if op != "spec.contains" or args[3] != "1" or real not in ("0", "1"):
+        if op != "spec.contains":
             return None
         spec = driver.ask("\t".join(["s.spec.admits", args[0], args[2]]))
-        if spec in ("0", "1") and spec != real:
+        if spec not in ("0", "1"):
+            return None
+        if args[3] == "1" and real in ("0", "1") and spec != real:
             return ("contains_vs_spec_strings", {"clause": core.dec(args[0]), "cand": core.dec(args[2]), "spec": spec})
+        if args[3] == "~" and real.startswith("raw "):
+            # a valid clause and a valid candidate, yet `contains` raised
+            inp = {"clause": core.dec(args[0]), "cand": core.dec(args[2]), "spec": spec, "mode": "in"}
+            try:
+                if not self.check_law("contains_vs_spec_strings", inp)[0]:
+                    return ("contains_vs_spec_strings", inp)
+            except Exception:
+                pass
         return None
 
     # ------------------------------------------------------------ laws on the real code
     def gen_laws(self, rng, n):
-        for _ in range(n):
+        for i in range(n):
             op, v, wild = R.clause_struct(rng)
             c = R.candidate_near(rng, v)
             inp = {"op": op, "v": v, "wild": wild, "c": c, "seed": rng.randrange(1 << 30)}
             if op == "===":
                 inp["raw"] = R.arbitrary_text(rng, c)
-            yield ("contains_vs_admits", inp)
+            if i % 4 == 3:
+                # a final release is not subject to the pre-release gate: `in` must give the operator's answer
+                c = dict(c, pre=None, dev=None)
+                inp["c"] = c
+                if op == "===":
+                    inp["raw"] = R.arbitrary_text(rng, c)
+                yield ("in_operator_final_candidate", inp)
+            else:
+                yield ("contains_vs_admits", inp)
 
     def check_law(self, law, inp):
         sp, Version, InvalidVersion = _api()
         if law == "contains_vs_spec_strings":
-            got = sp.Specifier(inp["clause"]).contains(inp["cand"], prereleases=True)
+            if inp.get("mode") == "in":
+                if Version(inp["cand"]).is_prerelease:
+                    raise ValueError("outside the domain: the gate applies to pre-release candidates")
+                call = f"{inp['cand']!r} in Specifier({inp['clause']!r})"
+                try:
+                    got = inp["cand"] in sp.Specifier(inp["clause"])
+                except InvalidVersion:
+                    return False, f"{call} raises InvalidVersion, PEP 440 semantics say {inp['spec'] == '1'}"
+            else:
+                call = f"Specifier({inp['clause']!r}).contains({inp['cand']!r}, prereleases=True)"
+                got = sp.Specifier(inp["clause"]).contains(inp["cand"], prereleases=True)
             return core.encb(got) == inp["spec"], (
-                f"Specifier({inp['clause']!r}).contains({inp['cand']!r}, prereleases=True) = {got}, "
-                f"PEP 440 semantics (Pep440.admits) say {inp['spec'] == '1'}")
+                f"{call} = {got}, PEP 440 semantics (Pep440.admits) say {inp['spec'] == '1'}")
         if law == "contains_vs_admits":
             clause, cand, want = spelled(inp)
             spec = sp.Specifier(clause)
@@ -255,6 +293,16 @@ class C03(Prop):
             if got2 != want:
                 return False, f"Version({cand!r}) in Specifier({clause!r}, prereleases=True) = {got2}, PEP 440 says {want}"
             return True, ""
+        if law == "in_operator_final_candidate":
+            c = R.norm(inp["c"])
+            if c.get("pre") is not None or c.get("dev") is not None:
+                raise ValueError("outside the domain: the gate applies to pre-release candidates")
+            clause, cand, want = spelled(inp)
+            try:
+                got = cand in sp.Specifier(clause)
+            except InvalidVersion:
+                return False, f"{cand!r} in Specifier({clause!r}) raises InvalidVersion; PEP 440 says {want}"
+            return got == want, f"{cand!r} in Specifier({clause!r}) = {got}, PEP 440 says {want} (final release, no gate)"
         raise KeyError(law)
 
 
